@@ -34,25 +34,34 @@ Core(pl, pcs, mode, len, files, pad) ==
 SingleCores == {Core(pl, pcs, "single", len, <<>>, "none") : pl \in PLs, pcs \in PcsLens, len \in Lens \cup {"absent", "str"}}
 BothCores   == {Core(pl, pcs, "both", len, <<f>>, "none") : pl \in GoodPLs, pcs \in GoodPcs, len \in Lens, f \in Lens}
 \* multi-file layouts: <=2 entries with every piece length / pieces string, 3 entries only where acceptance is possible
-Files2Cores == {Core(pl, pcs, "files", "absent", fs, pad) : pl \in PLs, pcs \in PcsLens, fs \in SeqsUpTo(Lens, 2), pad \in {"none", "neg"}}
-Files3Cores == {Core(pl, pcs, "files", "absent", fs, pad) : pl \in GoodPLs, pcs \in GoodPcs, fs \in [1 .. 3 -> Lens], pad \in PadModes}
-Files3Quick == {c \in Files3Cores : c.pl = "16384" /\ c.pad # "tail"}
+LensS == {"-1", "0", "pl", "2^63-1"}
+Lens3 == {"-2^63", "-pl", "-1", "0", "1", "pl-1", "pl", "pl+1", "2^62", "2^63-1"}
+F2a == {Core(pl, pcs, "files", "absent", fs, pad) : pl \in PLs, pcs \in PcsLens, fs \in SeqsUpTo(LensS, 2), pad \in {"none", "neg"}}
+F2b == {Core(pl, pcs, "files", "absent", fs, pad) : pl \in GoodPLs, pcs \in GoodPcs, fs \in SeqsUpTo(Lens, 2), pad \in {"none", "neg"}}
+F2c == {Core(pl, pcs, "files", "absent", fs, pad) : pl \in PLs, pcs \in PcsLens, fs \in SeqsUpTo(Lens, 2), pad \in {"none", "neg"}}
+F3q == {Core("16384", pcs, "files", "absent", fs, pad) : pcs \in GoodPcs, fs \in [1 .. 3 -> Lens3], pad \in {"none", "neg"}}
+F3t == {Core(pl, pcs, "files", "absent", fs, pad) : pl \in GoodPLs, pcs \in GoodPcs, fs \in [1 .. 3 -> Lens], pad \in PadModes}
+QuickCores    == SingleCores \cup F2a \cup F2b \cup F3q
+ThoroughCores == SingleCores \cup BothCores \cup F2c \cup F3t
 
-Variants ==
+\* deviations that cost seconds of CPU or hundreds of MB each: applied to one representative core only
+Heavy == {"extra:nest3M", "extra:dictnest3M", "info:nest3M", "extra:comment11M", "extra:bigstr", "pieces:bigstr", "name:bigstr",
+          "pieces:65536", "pieces:65537", "extra:nest200k", "announcelist:deep", "urllist:nested", "extra:manykeys"}
+Light ==
     { "priv:i0e", "priv:i1e", "priv:i-1e", "priv:s1", "priv:s0", "priv:s", "priv:list", "priv:dict", "priv:huge",
       "name:absent", "name:int", "name:empty", "name:utf8", "name:list",
       "dup:length", "dup:files", "dup:piecelength", "dup:pieces", "dup:info", "unsorted", "intkey", "emptykey",
-      "extra:nest100", "extra:nest10k", "extra:nest200k", "extra:nest3M", "extra:dictnest3M", "info:nest3M",
-      "extra:bigstr", "pieces:bigstr", "name:bigstr", "extra:comment11M", "extra:manykeys",
+      "extra:nest100", "extra:nest10k",
       "files:emptylist", "files:dict", "files:int", "files:listofint", "path:absent", "path:empty", "path:int", "path:str",
       "path:deep", "flen:str", "flen:absent", "flen:list", "attr:int", "attr:p",
       "type:plstr", "type:piecesint", "type:lengthstr", "type:infolist", "type:infostr", "type:toplist", "type:topint",
-      "trail:junk", "trail:second", "announce:int", "announcelist:deep", "urllist:int", "urllist:nested",
+      "trail:junk", "trail:second", "announce:int", "urllist:int",
       "neg0", "leadzero", "plus", "int:empty", "int:huge", "str:neglen", "str:short",
-      "pieces:65536", "pieces:65537", "files:1000zero", "files:1000neg" }
+      "files:1000zero", "files:1000neg" }
 
+Rep1 == Core("16384", 20, "single", "pl", <<>>, "none")
 RepCores ==
-    { Core("16384", 20, "single", "pl", <<>>, "none"),
+    { Rep1,
       Core("16384", 40, "files", "absent", <<"pl", "pl-1">>, "none"),
       Core("16384", 20, "files", "absent", <<"pl", "1", "-1">>, "neg"),
       Core("1", 20, "single", "1", <<>>, "none"),
@@ -60,12 +69,13 @@ RepCores ==
 RepQuick == { c \in RepCores : c.pl = "16384" }
 
 Cases ==
-    LET cores == SingleCores \cup Files2Cores \cup (IF TIER = "quick" THEN Files3Quick ELSE Files3Cores \cup BothCores)
+    LET cores == IF TIER = "quick" THEN QuickCores ELSE ThoroughCores
         reps  == IF TIER = "quick" THEN RepQuick ELSE RepCores
-    IN cores \cup {[c EXCEPT !.var = v] : c \in reps, v \in Variants}
+    IN cores \cup {[c EXCEPT !.var = v] : c \in reps, v \in Light} \cup {[Rep1 EXCEPT !.var = v] : v \in (IF TIER = "quick" THEN Heavy \ {"extra:dictnest3M", "info:nest3M"} ELSE Heavy)}
 
+\* one evaluation prints every case; the state space itself is a single state
 VARIABLE c
-Init == c \in Cases /\ PrintT("@@" \o ToJson(c))
+Init == c = Cardinality(Cases) /\ \A x \in Cases : PrintT("@@" \o ToJson(x))
 Next == FALSE /\ UNCHANGED c
 Spec == Init /\ [][Next]_c
 =============================================================================
